@@ -21,48 +21,67 @@ REDUCERS = ("sum", "any", "all", "max", "min")
 
 
 def probes(ctx, repo):
-    """facts of the rewriter the table relies on; a changed fact = the table is stale"""
+    """What the rewriter does with each shape is taken from its *tested contract*: the (function, expected
+    array form) pairs of src/_gettsim_tests/test_vectorization.py, which every tree that passes the suite
+    reproduces.  Returns the set of shape classes that are pinned as silently wrong."""
+    tp = repo.root / "src/_gettsim_tests/test_vectorization.py"
+    if not tp.exists():
+        raise AnalysisError("src/_gettsim_tests/test_vectorization.py (the rewriter's tested contract) vanished")
+    try:
+        tree = ast.parse(tp.read_text(encoding="utf-8"))
+    except SyntaxError as e:
+        raise AnalysisError(f"test_vectorization.py does not parse: {e}") from e
+    fns = {n.name: n for n in tree.body if isinstance(n, ast.FunctionDef)}
+    pairs = [(fns[k], fns[k + "_exp"]) for k in fns if k + "_exp" in fns]
+    if len(pairs) < 8:
+        raise AnalysisError(f"only {len(pairs)} (function, expected) pairs found in test_vectorization.py")
+    pinned = {}
+
+    def where_calls(f):
+        return [n for n in ast.walk(f) if isinstance(n, ast.Call) and isinstance(n.func, ast.Attribute) and n.func.attr == "where"]
+
+    for src, exp in pairs:
+        for n in ast.walk(src):
+            # S1: else-less augmented assignment
+            if isinstance(n, ast.If) and not n.orelse and len(n.body) == 1 and isinstance(n.body[0], ast.AugAssign) and isinstance(n.body[0].target, ast.Name):
+                tgt = n.body[0].target.id
+                for e in ast.walk(exp):
+                    if isinstance(e, ast.AugAssign) and isinstance(e.target, ast.Name) and e.target.id == tgt and isinstance(e.value, ast.Call) and e.value in where_calls(exp) and len(e.value.args) == 3:
+                        third = e.value.args[2]
+                        pinned["S1"] = isinstance(third, ast.Name) and third.id == tgt
+                        ctx.info(f"contract {src.name}: `if c: {tgt} op= v` -> `{ast.unparse(e)}` ({'old value substituted: silently wrong' if pinned['S1'] else 'neutral element: sound'})")
+            # S4: one-argument reduction over a display of data
+            if isinstance(n, ast.Call) and isinstance(n.func, ast.Name) and n.func.id in REDUCERS and len(n.args) == 1 and isinstance(n.args[0], (ast.Tuple, ast.List)):
+                for e in ast.walk(exp):
+                    if isinstance(e, ast.Call) and isinstance(e.func, ast.Attribute) and e.func.attr == n.func.id and len(e.args) == 1 and ast.unparse(e.args[0]) == ast.unparse(n.args[0]):
+                        pinned["S4"] = True
+                        ctx.info(f"contract {src.name}: `{ast.unparse(n)}` -> `{ast.unparse(e)}` (whole-array reduction)")
+            # S3: and/or -> logical_and/or
+            if isinstance(n, ast.BoolOp):
+                if any(isinstance(e, ast.Call) and isinstance(e.func, ast.Attribute) and e.func.attr in ("logical_and", "logical_or") for e in ast.walk(exp)):
+                    pinned["S3"] = True
+    for k in ("S1", "S3", "S4"):
+        if k not in pinned:
+            raise AnalysisError(f"the tested contract of the rewriter no longer pins class {k}; C09's shape table needs a re-read")
+    # S2 (branches of different statement kinds / targets) is not pinned by a test: read it from the rewriter
     v = repo.module("vectorization.py")
     cls = [n for n in v.tree.body if isinstance(n, ast.ClassDef) and any("NodeTransformer" in ast.unparse(b) for b in n.bases)]
-    if len(cls) != 1:
-        raise AnalysisError("vectorization.py: the NodeTransformer subclass vanished or multiplied; the shape table needs a re-read")
-    methods = {n.name for n in cls[0].body if isinstance(n, ast.FunctionDef)}
-    want = {"__init__", "visit_Call", "visit_UnaryOp", "visit_BoolOp", "visit_If", "visit_IfExp"}
-    if methods != want:
-        raise AnalysisError(f"rewriter now handles {sorted(methods ^ want)} differently (visit_* methods changed); the shape table of C09 is a reading of the previous rewriter and needs a re-read")
-    itc = find_function(v, "_if_to_call", "rewriter anchor")
-    # else-less case appends the bare target name for Assign and AugAssign alike
-    elseless = None
-    for n in ast.walk(itc):
-        if isinstance(n, ast.If) and ast.unparse(n.test) in ("node.orelse == []", "not node.orelse", "len(node.orelse) == 0"):
-            elseless = n
-    if elseless is None:
-        raise AnalysisError("_if_to_call: else-less case not recognised; re-read needed")
-    names = [n for n in ast.walk(elseless) if isinstance(n, ast.Call) and ast.unparse(n.func) == "ast.Name"]
-    ids = sorted(ast.unparse(k.value) for n in names for k in n.keywords if k.arg == "id")
-    if ids != ["node.body[0].target.id", "node.body[0].targets[0].id"]:
-        raise AnalysisError(f"_if_to_call: else-less case no longer substitutes the bare target name for both Assign and AugAssign ({ids}); class S1 needs a re-read")
-    # root cause of class S1 (a defect of the rewriter itself, for every function in the documented style)
-    ctx.rule("S1-rewriter", "an else-less `if c: x op= v` must not be rewritten to `x op= where(c, v, x)`")
-    ctx.ob("S1-rewriter", ok=False, distinct="else-less-augassign")
-    ctx.violation("S1-rewriter", "_if_to_call|else-less augmented assignment falls back to the bare target", v.loc(elseless) + " _if_to_call",
-                  "for `if c: x += v` without else the rewriter emits `x += where(c, v, x)`: where c is false the old value is added (doubled) instead of left unchanged")
-    # statement taken from the if-branch only
-    vi = [n for n in cls[0].body if isinstance(n, ast.FunctionDef) and n.name == "visit_If"][0]
-    txt = ast.unparse(vi)
-    if "out = node.body[0]" not in txt or "out.value = call" not in txt:
-        raise AnalysisError("visit_If no longer re-uses the if-branch's statement; class S2 needs a re-read")
-    cc = find_function(v, "_call_to_call_from_module", "rewriter anchor")
-    tt = [n for n in ast.walk(cc) if isinstance(n, ast.Assign) and isinstance(n.value, ast.Tuple) and all(isinstance(e, ast.Constant) for e in n.value.elts)]
-    if not tt or sorted(e.value for e in tt[0].value.elts) != sorted(REDUCERS):
-        raise AnalysisError("_call_to_call_from_module no longer rewrites exactly sum/any/all/max/min; class S4 needs a re-read")
-    one = [n for n in ast.walk(cc) if isinstance(n, ast.If) and ast.unparse(n.test) == "len(args) == 1"]
-    if not one or "attr=func_id" not in ast.unparse(one[0].body[0]):
-        raise AnalysisError("_call_to_call_from_module: one-argument case no longer maps f(x) to module.f(x); class S4 needs a re-read")
-    bo = find_function(v, "_boolop_to_call", "rewriter anchor")
-    if "logical_and" not in ast.unparse(bo) or "logical_or" not in ast.unparse(bo):
-        raise AnalysisError("_boolop_to_call no longer maps and/or to logical_and/logical_or; class S3 needs a re-read")
-    ctx.info("rewriter probes hold: visit_* set, else-less substitution, if-branch statement re-use, one-argument reductions, logical_and/or")
+    s2 = False
+    extra_visits = set()
+    if len(cls) == 1:
+        methods = {n.name for n in cls[0].body if isinstance(n, ast.FunctionDef)}
+        extra_visits = methods - {"__init__", "visit_Call", "visit_UnaryOp", "visit_BoolOp", "visit_If", "visit_IfExp"}
+        vi = [n for n in cls[0].body if isinstance(n, ast.FunctionDef) and n.name == "visit_If"]
+        if vi:
+            # the transformed statement is the if-branch's own statement object with its value replaced
+            txt = ast.unparse(vi[0])
+            s2 = "node.body[0]" in txt and ("value = call" in txt or ".value=" in txt.replace(" ", ""))
+    pinned["S2"] = s2
+    if not s2:
+        ctx.skip("S2", "visit_If", "the rewriter's handling of mismatched branches is not recognisable any more; class S2 is not judged")
+    if extra_visits:
+        ctx.info(f"the rewriter handles additional node kinds {sorted(extra_visits)}; shapes involving them are not classified (their array forms are not assumed to fail loudly)")
+    return pinned, extra_visits
 
 
 def _eff(s):
@@ -86,7 +105,13 @@ def check(ctx):
     ctx.assumptions += [
         "the shape table is a reading of today's rewriter, tied to probes on vectorization.py; correctness of the rewriter on arbitrary programs (translation validation) is not decided",
     ]
-    probes(ctx, repo)
+    pinned, extra_visits = probes(ctx, repo)
+    # root cause of class S1 (a defect of the rewriter itself, for every function in the documented style)
+    ctx.rule("S1-rewriter", "an else-less `if c: x op= v` must not be rewritten to `x op= where(c, v, x)`")
+    ctx.ob("S1-rewriter", ok=not pinned["S1"], distinct="else-less-augassign")
+    if pinned["S1"]:
+        ctx.violation("S1-rewriter", "_if_to_call|else-less augmented assignment falls back to the bare target", "src/_gettsim/vectorization.py _if_to_call",
+                      "for `if c: x += v` without else the rewriter emits `x += where(c, v, x)` (pinned by test_vectorization.py): where c is false the old value is added (doubled) instead of left unchanged")
     ctx.rule("S1", "no `if c: x += v` without else (rewritten to x += where(c, v, x): adds x when c is false)")
     ctx.rule("S2", "both branches of an if/else are one statement of the same kind, same target and same augmented operator (the else-branch's value is pasted into the if-branch's statement)")
     ctx.rule("S3", "no and/or whose value can be non-boolean (rewritten to logical_and/or, which returns booleans)")
@@ -103,6 +128,8 @@ def check(ctx):
             if sm[0] != "ok":
                 continue
             for e in sm[3]:
+                if e[0] == "chained-compare" and "visit_Compare" in extra_visits:
+                    continue
                 if e[0] in ("scalar-cast", "chained-compare", "dyn-key", "for-abs", "comp-abs-iter") and e[2] == repo.rules_by_qual[q].mod.rel:
                     if e[0] == "dyn-key" and "(get)" not in str(e[6] if len(e) > 7 else ""):
                         loud.setdefault(q, f"{e[0]}: {e[3]}")
@@ -131,7 +158,7 @@ def check(ctx):
                 b = n.body[0]
                 o = n.orelse[0] if n.orelse else None
                 if o is None:
-                    bad = isinstance(b, ast.AugAssign)
+                    bad = isinstance(b, ast.AugAssign) and pinned["S1"]
                     ctx.ob("S1", ok=not bad, distinct=(r.qual, ast.unparse(n.test)))
                     if bad:
                         ctx.violation("S1", f"{r.qual}|if {ast.unparse(n.test)}: {ast.unparse(b)}", loc, f"`if {ast.unparse(n.test)}: {ast.unparse(b)}` has no else: the array form computes `{ast.unparse(b.target)} {_opstr(b.op)}= where(c, {ast.unparse(b.value)}, {ast.unparse(b.target)})` and silently adds the old value where the condition is false")
@@ -141,7 +168,9 @@ def check(ctx):
                     ctx.ob("S2", ok=True, distinct=(r.qual, n.lineno))
                     continue  # loud
                 bad = None
-                if type(eb) is not type(eo):
+                if not pinned["S2"]:
+                    pass
+                elif type(eb) is not type(eo):
                     bad = f"if-branch is {type(eb).__name__} but else-branch is {type(eo).__name__}"
                 elif isinstance(eb, (ast.Assign, ast.AugAssign)) and _tgt(eb) != _tgt(eo):
                     bad = f"branches assign different targets ({_tgt(eb)} vs {_tgt(eo)})"
